@@ -130,6 +130,48 @@ def large_data_case(rnd, k):
     return []
 
 
+def correlated_covariance_case(rnd, k):
+    """A valid but strongly correlated full covariance (squared-exponential kernel plus a small uncorrelated part, condition number
+    1e6 ... 1e10) in double precision: misfit and gradient belong to the covariance that was GIVEN.  The tolerance is the accuracy a
+    linear solve can have at that condition number (1000 * cond * 2^-52, at least 1e-6, relative to the vector); no Coq case here."""
+    from hmclab.Distributions.LinearMatrix import _LinearMatrix_dense_forward_dense_covariance as LM   # (the back end itself: the wrapper holds float32 arrays)
+    m = rnd.choice([8, 12, 16, 24])
+    n = rnd.randint(2, 5)
+    g = numpy.random.default_rng(1700 + k)
+    G = numpy.round(g.normal(size=(m, n)) * 8) / 8
+    d = numpy.round(g.normal(size=(m, 1)) * 8) / 8
+    length = rnd.choice([1.5, 2.0, 3.0])
+    nug = 10.0 ** -rnd.choice([5, 6, 7, 8])
+    scale = rnd.choice([1.0, 4.0, 0.25])
+    idx = numpy.arange(m)
+    C = scale * (numpy.exp(-0.5 * ((idx[:, None] - idx[None, :]) / length) ** 2) + nug * numpy.eye(m))
+    cond = float(numpy.linalg.cond(C))
+    if not (cond < 1e11):
+        return []
+    pm = rnd.choice([True, None, False])
+    desc = f"dense G {m}x{n}, full covariance with correlation length {length}, nugget {nug}, scale {scale} (cond {cond:.1e}), premultiplication={pm}, float64"
+    with warnings.catch_warnings():
+        warnings.simplefilter("ignore")
+        obj = LM(G.copy(), d.copy(), C.copy(), dtype=numpy.float64, premultiplication=pm)
+        if any(numpy.dtype(v.dtype) == numpy.float32 for v in vars(obj).values() if isinstance(v, numpy.ndarray)):
+            return []      # (single precision cannot hold a covariance of this condition number: no statement to check)
+        x = numpy.array([[dy(rnd, -3, 3)] for _ in range(n)])
+        r = G @ x - d
+        wr = numpy.linalg.solve(C, r)
+        want_m = 0.5 * float((r.T @ wr).item())
+        want_g = G.T @ wr
+        mis = float(obj.misfit(x.copy()))
+        grad = numpy.asarray(obj.gradient(x.copy()), dtype=float).reshape(-1, 1)
+    rel = max(1e-6, 1000.0 * cond * 2.0 ** -52)
+    # (cancellation in G^T (C^-1 r) and r^T (C^-1 r) is measured against the size of the terms, not of the result)
+    size_m = 0.5 * float((numpy.abs(r).T @ numpy.abs(wr)).item()) + 1.0
+    size_g = float((numpy.abs(G).T @ numpy.abs(wr)).max()) + 1.0
+    if not (abs(mis - want_m) <= rel * size_m) or not (float(numpy.max(numpy.abs(grad - want_g))) <= rel * size_g):
+        return [("misfit-formula-correlated", f"{desc} at {x.flatten().tolist()}: misfit {mis} / gradient {grad.flatten().tolist()}, 1/2 r^T C^-1 r = {want_m} / "
+                 f"G^T C^-1 r = {want_g.flatten().tolist()} for the covariance that was given")]
+    return []
+
+
 def run(tier, seed):
     common.setup_env()
     import hmclab
@@ -146,6 +188,15 @@ def run(tier, seed):
                 violations.append(Violation(key, what, {"large_data_case": k}))
         except Exception as e:  # noqa
             violations.append(Violation("large-data-raised", f"LinearMatrix with thousands of data raised {type(e).__name__}: {str(e)[:160]}", {"large_data_case": k}))
+    rnd_c = random.Random(seed * 7919 + 1515)      # (its own stream: the cases below are unchanged)
+    for k in range(12 if tier == "quick" else 120):
+        dist["correlated_covariance_cases"] = dist.get("correlated_covariance_cases", 0) + 1
+        try:
+            for key, what in correlated_covariance_case(rnd_c, seed * 1000 + k):
+                violations.append(Violation(key, what, {"correlated_covariance_case": seed * 1000 + k, "stream": seed * 7919 + 1515}))
+        except Exception as e:  # noqa
+            violations.append(Violation("correlated-covariance-raised", f"LinearMatrix with a strongly correlated covariance raised {type(e).__name__}: {str(e)[:160]}",
+                                        {"correlated_covariance_case": seed * 1000 + k}))
     for i in range(n):
         pr = gen_problem(rnd)
         x = [dy(rnd, -3, 3) for _ in range(pr["n"])]
